@@ -174,6 +174,10 @@ class Live:
         self.requested = None
 
 
+class CreationFailed(Exception):
+    """add_table / insert_table / initial text assignment raised."""
+
+
 class Env:
     """One blank presentation per process; tables are added to / removed from its only slide."""
 
@@ -193,6 +197,16 @@ class Env:
         return slide
 
     def build(self, cfg, hist):
+        try:
+            return self._build(cfg, hist)
+        except HarnessError:
+            raise
+        except CreationFailed:
+            raise
+        except Exception as e:  # noqa: BLE001
+            raise CreationFailed("%s: %s" % (type(e).__name__, e)) from e
+
+    def _build(self, cfg, hist):
         via, r, c, wv, hv, _txt, _depth, _sz, _ori = cfg
         if via == "api":
             slide = self._api_slide()
@@ -533,32 +547,60 @@ def _env():
     return e
 
 
+# one signature per FAMILY of rules and run: the minimal witness (smallest table, shortest history, canonical
+# order) and the first problem observed at that witness; the problem's rule:detail is part of the signature
+FAMILY = {
+    "row-cells": "rectangular",
+    "origin-flag": "regions", "spanned-flag": "regions", "span": "regions", "xml-regions": "regions",
+    "text": "text",
+    "create": "sizes", "frame-size": "sizes", "size-readback": "sizes",
+    "not-refused": "refusal", "refused-but-changed": "refusal", "wrong-exception": "refusal",
+    "self-merge-changed": "refusal",
+    "op-raised": "op-raised",
+}
+
+
 def _wkey(cfg, hist, op):
     return cfg_rank(cfg) + (len(hist) + (1 if op else 0),) + (tuple(hist) + ((tuple(op),) if op else ()),)
 
 
 def _expand(part, chunk):
     env = _env()
-    viol = {}   # (rule, detail) -> (key, what, replay-json)
+    viol = {}   # family -> (key, what, replay-json)
     succ = {}   # (cfg_idx, canon) -> hist
     stats = {}
 
     def report(cfg, hist, op, problems):
+        done = set()
         for rule, detail, msg in problems:
             part.count("violating_observations")
+            fam = FAMILY[rule]
+            if fam in done:
+                continue  # first problem of a family per transition
+            done.add(fam)
             key = _wkey(cfg, hist, op)
-            cur = viol.get((rule, detail))
+            cur = viol.get(fam)
             if cur is None or key < cur[0]:
                 data = {"kind": "transition" if op else "create", "cfg": list(cfg), "history": [list(o) for o in hist],
                         "op": list(op) if op else None, "rule": rule, "detail": detail}
                 what = "%s after [%s]%s: %s" % (cfg_label(cfg), " ".join(op_str(o) for o in hist),
                                                   (" then " + op_str(op)) if op else " (creation)", msg)
-                viol[(rule, detail)] = (key, what, json.dumps(data, sort_keys=True))
+                viol[fam] = (key, what, json.dumps(data, sort_keys=True))
 
     for cfg_idx, hist in chunk:
         cfg = _CFGS[cfg_idx]
         depth, ori = cfg[6], cfg[8]
-        live = env.build(cfg, hist)
+        try:
+            live = env.build(cfg, hist)
+        except CreationFailed as e:
+            if hist:
+                raise HarnessError("state %r of %s cannot be rebuilt: %s" % (hist, cfg_label(cfg), e))
+            part.count("transitions")
+            part.count("traces_validated_against_impl")
+            part.outcome("create", "raised")
+            report(cfg, (), None, [("op-raised", "create:" + str(e).split(":")[0],
+                                    "creating the table raised %s" % e)])
+            continue
         model = initial_model(cfg, live)
         if not hist:
             # the creation transition: requested sizes + full state check of the initial state
@@ -568,7 +610,8 @@ def _expand(part, chunk):
             pr = creation_problems(live, cfg, model)
             pr.extend(check_state(live, model, stats))
             canon0 = canon_of(live.gf.element)
-            part.outcome("create", "ok" if not pr else "problem")
+            part.outcome("create", "%s/%s" % (("w=%s,h=%s" % (cfg[3], cfg[4])) if cfg[0] == "api" else "placeholder",
+                                                "ok" if not pr else "problem"))
             report(cfg, (), None, pr)
             if canon0 is not None:
                 part.add("succ", (cfg_idx, canon0, ()))
@@ -586,8 +629,13 @@ def _expand(part, chunk):
             part.count("transitions")
             pr, label, why, outcome, canon, nxt, dirty = step(env, live, model, op, before, fbefore, stats, cfg_idx)
             part.count("traces_validated_against_impl")
-            part.outcome(OPNAME[op[0]], "%s/%s/%s" % (why, label, outcome))
             same_value = (op[0] == "h" and model.heights[op[1]] == op[2]) or (op[0] == "w" and model.widths[op[1]] == op[2])
+            extra = ""
+            if op[0] in "hw":
+                extra = "/same-value" if same_value else ("/%s-merged-table" % ("on" if model.regions() else "on-un"))
+            elif op[0] == "f":
+                extra = "/this.merge(other)" if op[3] == 0 else "/other.merge(this)"
+            part.outcome(OPNAME[op[0]], "%s/%s/%s%s" % (why, label, outcome, extra))
             if label != NOOP and not same_value:
                 part.count("nontrivial_count")
             if pr:
@@ -607,8 +655,8 @@ def _expand(part, chunk):
                 fbefore = c14n(live.foreign.element)
     for (ci, canon), h in succ.items():
         part.add("succ", (ci, canon, h))
-    for (rule, detail), (key, what, js) in viol.items():
-        part.add("viol", (rule, detail, key, what, js))
+    for fam, (key, what, js) in viol.items():
+        part.add("viol", (fam, key, what, js))
     for k, v in stats.items():
         part.count(k, v)
 
@@ -640,7 +688,7 @@ def run(ctx):
     have_ph = os.path.exists(PH_FILE)
     ctx.extra["placeholder_creation_path"] = "explored" if have_ph else "skipped: %s not found" % PH_FILE
     _CFGS = make_cfgs(ctx.thorough, have_ph)
-    budget_s = 600.0 if ctx.thorough else 1e9
+    budget_s = float(os.environ.get("VERIF_C14_BUDGET_S", "600")) if ctx.thorough else 1e9
     t0 = time.time()
 
     seen = {}
@@ -650,8 +698,8 @@ def run(ctx):
     expanded = 0
     capped = False
     while frontier:
-        items = ctx.rotate(sorted(frontier))
-        # small chunks: a 6x6 / 4x4 state costs orders of magnitude more than a 1x2 state
+        # big tables first (a 6x6 state costs orders of magnitude more than a 1x2 state), small chunks
+        items = ctx.rotate(sorted(frontier, key=lambda it: (-_CFGS[it[0]][1] * _CFGS[it[0]][2], it)))
         BATCH = 4000
         for b0 in range(0, len(items), BATCH):
             if time.time() - t0 > budget_s:
@@ -687,7 +735,8 @@ def run(ctx):
     all_states = set(seen) | last
     ctx.count("states", len(all_states))
     ctx.extra["max_depth_completed_per_shape"] = "see caps" if capped else "all bounds completed"
-    ctx.extra["levels_completed"] = completed
+    ctx.extra["operations_depth_completed"] = completed + 1
+    ctx.extra["depth_bound_per_shape"] = {"%dx%d" % (c[1], c[2]): c[6] for c in _CFGS if c[3:6] == ("nondiv", "nondiv", "letters")}
     ctx.extra["configurations"] = len(_CFGS)
     ctx.extra["strict_paragraph_model_mismatches"] = ctx.counters.pop("strict_paragraph_mismatch", 0)
     per_shape = {}
@@ -701,29 +750,33 @@ def run(ctx):
     if deep:
         ctx.sample({"3x3 state reached by": [op_str(o) for o in deep[len(deep) // 2]]})
 
-    # one signature per (rule, detail): the minimal witness over the whole run
+    # one signature per rule family: the minimal witness over the whole run
     best = {}
-    for rule, detail, key, what, js in ctx.sets.pop("viol", set()):
-        cur = best.get((rule, detail))
+    for fam, key, what, js in ctx.sets.pop("viol", set()):
+        cur = best.get(fam)
         if cur is None or (key, what) < (cur[0], cur[1]):
-            best[(rule, detail)] = (key, what, js)
-    for (rule, detail), (key, what, js) in sorted(best.items(), key=lambda kv: kv[1][0]):
+            best[fam] = (key, what, js)
+    for fam, (key, what, js) in sorted(best.items(), key=lambda kv: kv[1][0]):
         data = json.loads(js)
         cfg = tuple(data["cfg"])
         hist = [op_str(o) for o in data["history"]] + ([op_str(data["op"])] if data["op"] else [])
-        sig = "C14|%s|%s|%s|%s" % (rule, detail, cfg_label(cfg), " ".join(hist) or "create")
+        sig = "C14|%s|%s:%s|%s|%s" % (fam, data["rule"], data["detail"], cfg_label(cfg), " ".join(hist) or "create")
         ctx.violation(sig, what, data)
 
     if ctx.counters.get("transitions", 0) < 1000 or len(all_states) < 100:
         raise HarnessError("vacuous run: %r transitions, %d states" % (ctx.counters.get("transitions"), len(all_states)))
 
 
-
 def replay(data):
     cfg = tuple(data["cfg"])
     hist = tuple(tuple(o) for o in data["history"])
     env = Env()
-    live = env.build(cfg, hist)
+    try:
+        live = env.build(cfg, hist)
+    except CreationFailed as e:
+        if data["rule"] == "op-raised" and data["kind"] == "create":
+            return "creating the table raised %s" % e
+        raise
     model = initial_model(cfg, live)
     if data["kind"] == "create":
         pr = creation_problems(live, cfg, model)
